@@ -205,6 +205,23 @@ fn check_pair(a: i64, b: i64, literal_too: bool) -> Result<bool, (String, String
             if got3 != want {
                 return Err((format!("literal form gave {:?}, oracle {:?}", got3, want), line3));
             }
+            // the same as a stored program line (compiled with the program, not with a direct line);
+            // non-negative literals so that the text holds two plain Integer constants
+            if a >= 0 && b >= 0 {
+                let l10 = format!("10 PRINT {} {} {}:C%={} {} {}:PRINT C%", a, op, b, a, op, b);
+                let _ = run_line(&mut t, &l10);
+                let got4 = run_line(&mut t, "RUN");
+                let want4 = match &exp {
+                    Exp::Val(_) => format!("{}{}", want, want),
+                    Exp::Err(e) => format!("{} IN 10\n", e.trim_end_matches('\n')),
+                };
+                let _ = run_line(&mut t, "10");
+                if got4 != want4 {
+                    return Err((format!("as a program line: RUN gave {:?}, oracle {:?}", got4, want4), l10));
+                }
+                // RUN cleared the variables
+                let _ = run_line(&mut t, &format!("A%={}:B%={}", int_src(a), int_src(b)));
+            }
         }
     }
     Ok(nontrivial)
